@@ -201,26 +201,24 @@ def replay_window(p):
 
 def replay_window_reject(p):
     _quiet()
-    from dliswriter.utils.source_data_wrappers import DictDataWrapper, NumpyDataWrapper, HDF5DataWrapper
     kind, total, frm, to, to_none = p['args'][:5]
-    total = min(total, 400)
+    total = min(total, 300)
+    to = min(to, total + 5)
     a, b, x = make_cols(total, 2, 7, '<', '<', 0)
-    src, mapping, cleanup = make_real_source(kind, a, b, x)
+    eff_to = total if to_none else to
+    want = 0 <= frm < eff_to <= total
+    argmap = {'kind': kind, 'total': total, 'frm': frm, 'to': None if to_none else to}
     try:
-        W = [DictDataWrapper, NumpyDataWrapper, NumpyDataWrapper, HDF5DataWrapper, NumpyDataWrapper][kind]
-        try:
-            w = W(src, mapping, from_idx=frm, to_idx=None if to_none else min(to, total))
-            ok = True
-            if hasattr(w, 'close'):
-                w.close()
-        except ValueError:
-            ok = False
-    finally:
-        if cleanup:
-            os.remove(cleanup)
-    eff_to = total if to_none else min(to, total)
-    want = frm < total and eff_to - frm >= 1
-    return _res('' if ok == want else f'window [{frm}, {eff_to}) of {total} rows: accepted={ok}, expected {want}')
+        data, _df = write_with_source(kind, a, b, x, frm, None if to_none else to, None)
+    except (ValueError, RuntimeError) as e:
+        return _res('' if not want else f'valid window [{frm}, {eff_to}) of {total} rows refused: {e}', argmap=argmap)
+    if not want:
+        frames, _c = decode_frames(data)
+        n = len(list(frames.values())[0]['rows'])
+        return _res(f'window [{frm}, {None if to_none else to}) of a {total}-row dataset was written ({n} records) instead of refused',
+                    {'records': n}, argmap)
+    bad = check_rows(data, a, b, frm, eff_to)
+    return _res(bad, argmap=argmap)
 
 
 def replay_iteration(p):
